@@ -152,6 +152,10 @@ def cloud(rng, kind, d, n):
         width = rng.choice([0.02, 0.3, 0.6, 0.8, 0.9, 1.0], size=d)
         low = rng.random(d) * (1 - width)
         return np.clip(low + width * rng.random((n, d)), 0.0, 0.999999)
+    if kind == 'slab':        # tight in the first parameter, unconstrained in all others: cube dimensions come after the ellipsoid one
+        width = np.array([0.3] + [1.0] * (d - 1))
+        low = np.array([0.35] + [0.0] * (d - 1))
+        return np.clip(low + width * rng.random((n, d)), 0.0, 0.999999)
     if kind == 'halo':        # a dense core inside a broad sparse halo
         m = (3 * n) // 4
         core = blob(0.5, 0.02, m)
@@ -301,6 +305,9 @@ def cases(tier, seed):
             add(cls='Mixture', d=d, cloud='box', n=200, enl=[1.1, 1.3][j % 2])
         for j in range(3):
             add(cls='Union', d=d, member='M', cloud='box', splits=2, n=200, unit=True, npm=d + 20)
+    for d in (3, 4, 5):
+        add(cls='Mixture', d=d, cloud='slab', n=200)
+        add(cls='Union', d=d, member='M', cloud='slab', splits=1, n=300, unit=True)
     # large minimum cluster size (the sampler's default is n_dim + 50): the too-small mixture component gets topped up
     for d in (2, 3):
         for cl in ('halo', 'blob', 'two'):
